@@ -150,6 +150,7 @@ Local(v) ==
                              VStr([v.s EXCEPT ![1] = 122]), VStr([v.s EXCEPT ![Len(v.s)] = 122])}
                        ELSE {})
     [] v.k = "bytes" -> {VBytes(Append(v.bs, 97)), VStr(v.bs)} \cup
+                        (IF v.bs = <<97, 98>> THEN {VObj("bytearray_ab", <<>>, NoneOpt)} ELSE {}) \cup
                         (IF Len(v.bs) > 0 THEN {VBytes(RemoveAt(v.bs, 1))} ELSE {})
     [] v.k = "uuid" -> {VUuid(v.ver, v.id + 1), VUuid(1, v.id)}
     [] v.k = "datetime" -> {VDatetime(v.dt + 1), VDate(v.dt)}
